@@ -1,6 +1,7 @@
 package rhphost
 
 import (
+	"bytes"
 	"encoding/json"
 	"errors"
 	"fmt"
@@ -36,6 +37,7 @@ type c08Step struct {
 	Offset   uint64   `json:"offset,omitempty"`   // roots; select: 0 current contract, k>0 the k-th latest renewed-away one
 	Length   uint64   `json:"length,omitempty"`   // roots; mine: blocks; form: duration
 	Fresh    bool     `json:"fresh,omitempty"`    // mine: fetch a new price table afterwards
+	Fault    bool     `json:"fault,omitempty"`    // the host's store fails the persisting call of this (well-formed) RPC
 }
 
 // Pseudo-steps (no RPC under judgement): "mine" advances the chain, "form"
@@ -116,21 +118,22 @@ type c08 struct {
 	cur   *c08Step
 
 	// material for replays: taken from earlier *successful* exchanges
-	oldRevs   []types.V2FileContract // earlier committed revisions of the current contract (stale bases)
-	oldSigs   []types.Signature      // earlier renter revision signatures
-	oldChal   []types.Signature      // earlier challenge signatures (free/append)
-	oldRoots  *proto4.RPCSectorRootsRequest
-	oldFund   *proto4.RPCFundAccountsRequest
-	oldRepl   map[bool]*proto4.RPCReplenishAccountsRequest
-	foreign   types.PrivateKey
-	unknownID types.FileContractID
-	prevIDs   []types.FileContractID       // contracts renewed away from
-	prev      []rhp.ContractRevision       // ... with their last revision
-	active    *rhp.ContractRevision        // the current contract while an old one is selected
-	injected  map[types.TransactionID]bool // transactions the renter itself put into the pool during the running step
-	fresh     []proto4.Account             // accounts allocated for the running overflow step
-	nfresh    int
-	baseAccts int
+	oldRevs    []types.V2FileContract // earlier committed revisions of the current contract (stale bases)
+	oldSigs    []types.Signature      // earlier renter revision signatures
+	oldChal    []types.Signature      // earlier challenge signatures (free/append)
+	oldRoots   *proto4.RPCSectorRootsRequest
+	oldFund    *proto4.RPCFundAccountsRequest
+	oldRepl    map[bool]*proto4.RPCReplenishAccountsRequest
+	foreign    types.PrivateKey
+	unknownID  types.FileContractID
+	prevIDs    []types.FileContractID       // contracts renewed away from
+	prev       []rhp.ContractRevision       // ... with their last revision
+	active     *rhp.ContractRevision        // the current contract while an old one is selected
+	afterFault string                       // the running step follows a store fault of this label
+	injected   map[types.TransactionID]bool // transactions the renter itself put into the pool during the running step
+	fresh      []proto4.Account             // accounts allocated for the running overflow step
+	nfresh     int
+	baseAccts  int
 }
 
 func (c *c08) report(sig, what string, ev *rhplab.Event, detail map[string]any) {
@@ -854,6 +857,9 @@ func (c *c08) step(st c08Step) error {
 	if done, err := c.pseudo(st); done {
 		return err
 	}
+	if st.Fault && st.Bad == "" {
+		return c.faultStep(st)
+	}
 	if err := c.quiesce(); err != nil {
 		return err
 	}
@@ -987,11 +993,17 @@ func (c *c08) step(st c08Step) error {
 		if n := c.lab.HostPanics() - panics0; n > 0 {
 			c.r.Count("handler_panics_on_good_requests", n)
 		}
-		if !res.success {
+		switch {
+		case !res.success && c.afterFault != "":
+			c.report("rpc-after-store-fault-failed:"+c.afterFault, "after an RPC whose persisting call failed, an ordinary RPC on the same contract no longer succeeds from the stored revision: "+errText(res.err), nil, map[string]any{"stored": pre.State.Revision})
+		case !res.success:
 			c.r.Count("unexpected_failures", 1)
 			c.r.Inconclusive(fmt.Sprintf("well-formed %s failed: %v (step %+v)", st.RPC, res.err, st))
+		case c.afterFault != "":
+			c.r.Count("rpcs_succeeded_after_store_fault", 1)
 		}
 	}
+	c.afterFault = ""
 	// after every commit: host state is the committed revision, and consensus accepts it
 	okCommits := 0
 	for _, ev := range commits {
@@ -1058,6 +1070,125 @@ func (c *c08) step(st c08Step) error {
 	}
 	c.lab.Mux.Forget(c.lab.Mux.Streams())
 	c.lab.Log.Trim(c.aud.seq)
+	return nil
+}
+
+var persistingKinds = []string{rhplab.EvRevise, rhplab.EvCreditAccounts, rhplab.EvCreditPools, rhplab.EvAddContract, rhplab.EvRenewContract}
+
+// faultStep issues a well-formed RPC while the host's store fails the call
+// that would persist its revision. A host signature must never leave the host
+// for a revision it did not persist: the renter gets an error, no host message
+// of the exchange carries the signature of the revision that was not stored,
+// nothing changes, and the next ordinary RPC works from the stored revision.
+// (The converse - persisted, but the renter never saw the signature - is fine.)
+func (c *c08) faultStep(st c08Step) error {
+	if err := c.quiesce(); err != nil {
+		return err
+	}
+	pre, err := c.snapshot()
+	if err != nil {
+		return inconclusive("pre-snapshot: %v", err)
+	}
+	c.contract.Revision = pre.State.Revision
+	c.injected = map[types.TransactionID]bool{}
+	pool0 := c.lab.PoolIDs()
+	disarm := c.lab.Log.FailNext(persistingKinds...)
+	res := c.do(st)
+	// the fault stays armed until the handler has returned: a host that answers
+	// first and persists afterwards must still meet it
+	if err := c.quiesce(); err != nil {
+		disarm()
+		return err
+	}
+	fired := disarm()
+	if res.harness != nil {
+		return res.harness
+	}
+	post, err := c.snapshot()
+	if err != nil {
+		return inconclusive("post-snapshot: %v", err)
+	}
+	c.r.Eval()
+	commits := c.aud.audit()
+	label := st.RPC
+	if !fired {
+		// the RPC never reached a persisting call (e.g. nothing to replenish)
+		c.r.Count("store_faults_not_reached", 1)
+		c.contract.Revision = post.State.Revision
+		c.model = slices.Clone(post.State.Roots)
+		return nil
+	}
+	c.r.Count("store_faults_injected", 1)
+	c.r.SetAdd("store_fault_kinds", label)
+	c.r.Distinct("store-fault:" + label)
+	detail := map[string]any{"renter_result": errText(res.err), "pre": pre.State.Revision.RevisionNumber, "post": post.State.Revision.RevisionNumber}
+	for i := range commits {
+		ev := &commits[i]
+		if !ev.Injected {
+			if ev.Err == "" {
+				c.report("persisted-despite-store-fault:"+label, "a second persisting call went through in an RPC whose store call failed", ev, detail)
+			}
+			continue
+		}
+		// no host message of the exchange may carry a host signature over what was not stored
+		sigs := map[string]types.Signature{"revision": ev.Revision.HostSignature}
+		if ev.Renewal != nil {
+			sigs["renewal"], sigs["renewed contract"] = ev.Renewal.HostSignature, ev.Renewal.NewContract.HostSignature
+		}
+		if stm := c.lab.Mux.Stream(ev.Stream); stm != nil {
+			for _, run := range stm.Runs() {
+				if run.Dir != rhplab.DirOut {
+					continue
+				}
+				for what, sig := range sigs {
+					if sig != (types.Signature{}) && bytes.Contains(run.Data, sig[:]) {
+						c.report("signature-released-for-unpersisted-revision:"+label, "the host sent its signature over the "+what+" although persisting it failed; the host still holds the previous state", ev, detail)
+					}
+				}
+			}
+		}
+	}
+	if res.success {
+		c.report("success-after-failed-persist:"+label, "the RPC completed successfully for the renter although the host could not persist its result", nil, detail)
+	}
+	if !post.equal(pre) {
+		c.report("store-fault-changed-state:"+label, "an RPC whose persisting call failed changed "+fmt.Sprint(pre.diff(post)), nil, map[string]any{"pre": pre, "post": post})
+	} else {
+		c.r.Count("store_faults_changed_nothing", 1)
+	}
+	creating := st.RPC == "renew" || st.RPC == "refresh-full" || st.RPC == "refresh-partial" || st.RPC == "form-contract"
+	if creating {
+		// observation only: the handlers add the transaction set to the pool before persisting
+		for id := range c.lab.PoolIDs() {
+			if !pool0[id] {
+				c.r.Count("pool_transactions_left_after_store_fault", 1)
+				break
+			}
+		}
+	}
+	c.lab.Mux.Forget(c.lab.Mux.Streams())
+	c.lab.Log.Trim(c.aud.seq)
+	if !post.State.Equal(pre.State) {
+		return c.newContract()
+	}
+	// the next ordinary RPC works from the stored revision
+	next := c08Step{RPC: st.RPC, Accounts: st.Accounts, Amounts: st.Amounts, Target: st.Target}
+	switch {
+	case creating:
+		next = c.genGood(c.rng, "fund")
+	case st.RPC == "replenish-accounts" || st.RPC == "replenish-pools":
+		next.Target = st.Target
+	default:
+		next = c.genGood(c.rng, st.RPC)
+	}
+	c.afterFault = label
+	if err := c.step(next); err != nil {
+		return err
+	}
+	if creating {
+		// the set the host put into its pool before persisting would be mined: move on
+		return c.newContract()
+	}
 	return nil
 }
 
@@ -1169,6 +1300,30 @@ func (c *c08) runSequential(nsteps int, table bool) error {
 			}
 		}
 	}
+	// store faults: every RPC kind with its persisting call failing
+	if table {
+		for _, rpc := range []string{"fund", "replenish-accounts", "replenish-pools", "append", "free", "roots", "form-contract", "renew", "refresh-full", "refresh-partial"} {
+			for rep := 0; rep < 2; rep++ {
+				st := c08Step{RPC: rpc}
+				switch rpc {
+				case "form-contract", "renew", "refresh-full", "refresh-partial":
+				case "replenish-accounts", "replenish-pools":
+					st = c08Step{RPC: rpc, Accounts: []int{rep, 2}, Target: 1<<45 + uint64(len(c.steps))<<24}
+				default:
+					if (rpc == "free" || rpc == "roots") && len(c.model) < 2 {
+						if err := c.step(c08Step{RPC: "append", Batch: []string{"new", "new"}}); err != nil {
+							return err
+						}
+					}
+					st = c.genGood(c.rng, rpc)
+				}
+				st.Fault = true
+				if err := c.step(st); err != nil {
+					return err
+				}
+			}
+		}
+	}
 	// (2) PRNG sequences
 	for i := 0; i < nsteps; i++ {
 		var st c08Step
@@ -1180,6 +1335,8 @@ func (c *c08) runSequential(nsteps int, table bool) error {
 		}
 		if bads := c08Bad[st.RPC]; len(bads) > 0 && c.rng.IntN(3) == 0 {
 			st.Bad = bads[c.rng.IntN(len(bads))]
+		} else if st.RPC != "latest" && c.rng.IntN(16) == 0 {
+			st.Fault = true
 		}
 		if err := c.step(st); err != nil {
 			return err
@@ -1336,6 +1493,9 @@ func runC08(r *mon.Run, replay string) {
 	r.Floor("pool_rejected_requests", 40)
 	r.Floor("formations_confirmed", 2)
 	r.Floor("contender_rounds", 12)
+	r.Floor("store_faults_injected", 40)
+	r.Floor("store_faults_changed_nothing", 40)
+	r.Floor("rpcs_succeeded_after_store_fault", 30)
 	workers := r.Pick(8, 16)
 	steps := r.Pick(300, 1500)
 	var wg sync.WaitGroup
